@@ -12,6 +12,7 @@
 //!               thread has none, poll it ONCE with a counting waker (+cs, unlock if Ready)
 //!               ad = drop the thread's pending future (no-op if none)
 //!               yw = if a future is pending: yield (self-unpark) until its waker fired (<= 300 times)
+//!               ys = the same, but at most 12 times (a short delay: the future is usually NOT yet woken)
 //! ops (rwlock): r/w, tr/tw, ar/aw, apr/apw, ad  likewise for read / write.
 //! A thread that starts a blocking op (l al r w ar aw) while it owns a pending future first
 //! drops that future (a thread never blocks while it owns a linked waiter node); a pending
@@ -92,11 +93,11 @@ impl Wake for CountWaker {
 
 /// op `yw`: while the thread owns a pending future, take yield points (self-unpark, >= 1, <= 300)
 /// until the future's counting waker has fired since the last poll
-fn wait_woken(pending: bool, cw: &CountWaker, seen: u32) {
+fn wait_woken(pending: bool, cw: &CountWaker, seen: u32, max: usize) {
   if !pending {
     return;
   }
-  for _ in 0..300 {
+  for _ in 0..max {
     Parker::current().unpark();
     if cw.0.load(SeqCst) != seen {
       break;
@@ -225,7 +226,8 @@ fn mutex_body(m: &'static HybridMutex<()>, probe: Arc<Probe>, ops: Vec<String>, 
         "ad" => {
           fut = None;
         }
-        "yw" => wait_woken(fut.is_some(), &cw, seen),
+        "yw" => wait_woken(fut.is_some(), &cw, seen, 300),
+        "ys" => wait_woken(fut.is_some(), &cw, seen, 12),
         o => panic!("bad mutex op {o}"),
       }
     }
@@ -326,7 +328,8 @@ fn rwlock_body(l: &'static HybridRwLock<()>, probe: Arc<Probe>, ops: Vec<String>
         "ad" => {
           fut = None;
         }
-        "yw" => wait_woken(fut.is_some(), &cw, seen),
+        "yw" => wait_woken(fut.is_some(), &cw, seen, 300),
+        "ys" => wait_woken(fut.is_some(), &cw, seen, 12),
         o => panic!("bad rwlock op {o}"),
       }
     }
